@@ -11,7 +11,7 @@ ID = 'C16'
 LEVEL = 'model_checking'
 RULE = ('every atom text of length <= 3 [thorough: 4] over the 21 characters {a Z 0 _ space \' " LF CR # % ( ) , . : é 五 ﬁ(ligature) ％(full-width) and a character outside the BMP} (quoted when '
         'the lexer requires it, also quoted when it does not), and every term of depth <= 2 over {6 atom texts, 0 7 123, '
-        'f/1, g/2, zero-argument compounds f() and a quoted one, [] [t] [t,u] [t|V] [t,u|V], _, named variables} - each literal compiled as a fact argument, as a head '
+        'f/1, g/2, zero-argument compounds f() and a quoted one, [] [t] [t,u] [t|V] [t,u|V], _, named variables} - and pairs of literals that print alike (a compound or list next to the quoted atom spelling it) - each literal compiled as a fact argument, as a head '
         'argument of a rule, and as a body-goal argument, each batch also compiled from a file holding the same text (identical code required), then (1) read back through a query: structure equals the '
         'literal\'s term and to_python equals the reference value (name / int / list / (name,[args]) / None); (2) the '
         'same term built with atom/functor/listpair/makelist through the API is used as query argument: exactly one '
@@ -82,6 +82,17 @@ def literals(tier):
     # unquoted atoms that the lexer accepts as they are, and the same atom quoted
     for s in ['a', 'aZ', 'a0', 'a_', 'truex', 'failx', 'a_Z0', 'abc']:
         yield 'atom-quoted-needlessly', A(s), "'%s'" % s
+    # confusable literals in ONE compilation unit: a compound / list and the quoted atom whose text is
+    # that term's source spelling, side by side in the same positions
+    for t in depth1():
+        try:
+            txt = show_term(t)
+        except Exception:  # noqa: BLE001
+            continue
+        if t[0] != 'f' or term_vars(t) or '\\' in txt or len(txt) > 24:
+            continue
+        yield 'confusable', F('pair', F('w', A(txt)), F('w', t), L([A(txt)]), L([t])), None
+        yield 'confusable', F('pair', F('w', t), F('w', A(txt))), None
     for t in depth1():
         yield 'term1', renumber(t), None
     for t in depth2():
